@@ -310,7 +310,14 @@ func (c *checker) run() int {
 						what = k.What
 					}
 				}
-				knownLines = append(knownLines, fmt.Sprintf("KNOWN-FINDING: property=%s %s %s", c.prop, p.v.Known, what))
+				kl := fmt.Sprintf("KNOWN-FINDING: property=%s %s %s", c.prop, p.v.Known, what)
+				dup := false
+				for _, l := range knownLines {
+					dup = dup || l == kl
+				}
+				if !dup {
+					knownLines = append(knownLines, kl)
+				}
 			} else {
 				inconclusive = append(inconclusive, fmt.Sprintf("%s/%s: counterexample for known finding %s did not reproduce natively (%s)", p.v.Harness, p.v.Label, p.v.Known, res))
 			}
